@@ -1,2 +1,93 @@
-(* C03 statements; proofs in Proofs/. *)
-From BaoV Require Import Model.Sync Spec.EncSpec.
+(* C03 - outboard creation computes the BLAKE3 root and the specified hash pairs.
+   Statements only; proofs in Proofs/Ob*.v. *)
+From BaoV Require Import Model.Sync Model.Fsm Spec.EncSpec Spec.PlanSpec Spec.HashAssm
+  Proofs.ObBase Proofs.ObLoop Proofs.ObCreate Proofs.ObSize Proofs.ObLayoutC.
+
+(* the recursion over chunk intervals and the recursion over byte lists agree *)
+Theorem C03_cv_is_hash_subtree : forall (HO : hops) (data : bytes HO) (a b : N) (is_root : bool),
+  b <= blob_chunks HO data -> blen HO data <= 2 ^ 63 ->
+  cv HO data a b is_root = hash_subtree HO a (chunk_bytes HO data a b) is_root.
+Proof. exact cv_hash_subtree_inside. Qed.
+Print Assumptions C03_cv_is_hash_subtree.
+
+Theorem C03_root_is_blake3_tree : forall (HO : hops) (data : bytes HO),
+  blen HO data <= 2 ^ 63 -> root_hash HO data = hash_subtree HO 0 data true.
+Proof. exact root_is_blake3_tree. Qed.
+Print Assumptions C03_root_is_blake3_tree.
+
+Theorem C03_post_order_writer : forall (HO : hops) (data : bytes HO) (bs : N),
+  blen HO data <= 2 ^ 63 ->
+  post_order_chunks_iter (mkTree (blen HO data) bs) = post_plan (blen HO data) bs ->
+  outboard_post_order HO (mkTree (blen HO data) bs) data
+    = (Ok (root_hash HO data), spec_outboard HO true data bs, []) /\
+  outboard_post_order_fsm HO (mkTree (blen HO data) bs) data
+    = (Ok (root_hash HO data), spec_outboard HO true data bs, []).
+Proof. exact c03_post_order_writer. Qed.
+Print Assumptions C03_post_order_writer.
+
+(* saves = (node, true_pair data node) for the parents of the plan, in order; save_all folds save *)
+Theorem C03_outboard_impl : forall (HO : hops) (data : bytes HO) (bs : N) (ob0 : outboard HO),
+  blen HO data <= 2 ^ 63 ->
+  post_order_chunks_iter (mkTree (blen HO data) bs) = post_plan (blen HO data) bs ->
+  let t := mkTree (blen HO data) bs in
+  match save_all HO ob0 (saves HO data (post_plan (blen HO data) bs)) with
+  | Ok ob' => outboard_impl HO t data ob0 = (Ok (root_hash HO data), ob', []) /\
+              outboard_impl_fsm HO t data ob0 = (Ok (root_hash HO data), ob', [])
+  | Err k => fst (fst (outboard_impl HO t data ob0)) = Err k /\
+             fst (fst (outboard_impl_fsm HO t data ob0)) = Err k
+  | Panic => fst (fst (outboard_impl HO t data ob0)) = Panic /\
+             fst (fst (outboard_impl_fsm HO t data ob0)) = Panic
+  end.
+Proof. exact c03_outboard_impl. Qed.
+Print Assumptions C03_outboard_impl.
+
+Theorem C03_root_all_entry_points : forall (HO : hops) (data : bytes HO) (bs : N),
+  blen HO data <= 2 ^ 63 ->
+  post_order_chunks_iter (mkTree (blen HO data) bs) = post_plan (blen HO data) bs ->
+  let size := blen HO data in
+  let t := mkTree size bs in
+  let good (k : ob_kind) (r : res io_kind (outboard HO)) :=
+    exists ob, r = Ok ob /\ ob_root ob = root_hash HO data /\ ob_k ob = k /\ ob_tree ob = t in
+  (forall k, k = PreIO \/ k = PostIO -> good k (create_sized HO k data size bs)) /\
+  (forall k, k = PreIO \/ k = PostIO -> good k (create_sized_fsm HO k data size bs)) /\
+  (forall ob0 : outboard HO, ob_k ob0 = PreIO \/ ob_k ob0 = PostIO -> ob_tree ob0 = t ->
+     good (ob_k ob0) (init_from HO ob0 data) /\ good (ob_k ob0) (init_from_fsm HO ob0 data)) /\
+  ((forall nd, In nd (plan_parents (post_plan size bs)) ->
+      exists o, pre_order_offset t nd = Some o /\ o < sp_blocks size bs - 1) ->
+   good PreMem (pre_mem_create HO data bs)) /\
+  post_mem_create HO data bs = Ok (mkOb PostMem (root_hash HO data) t (spec_outboard HO true data bs)).
+Proof. exact c03_root_all_entry_points. Qed.
+Print Assumptions C03_root_all_entry_points.
+
+Theorem C03_size : forall (HO : hops), cv_len32 HO ->
+  forall (data : bytes HO) (bs : N) (post : bool), blen HO data <= 2 ^ 63 ->
+  blen HO (spec_outboard HO post data bs) = (sp_blocks (blen HO data) bs - 1) * 64.
+Proof. exact spec_outboard_size. Qed.
+Print Assumptions C03_size.
+
+(* byte layout of the io-backed outboards (needs 32-byte chaining values: slots are 64 bytes) *)
+Theorem C03_layout_post : forall (HO : hops), cv_len32 HO ->
+  forall (data : bytes HO) (bs : N), blen HO data <= 2 ^ 63 ->
+  let size := blen HO data in
+  let t := mkTree size bs in
+  post_order_chunks_iter t = post_plan size bs ->
+  map (fun nd => option_map po_value (post_order_offset t nd))
+      (filter (sp_persisted size bs) (sp_post_nodes size bs))
+    = map (fun i => Some (N.of_nat i)) (seq 0 (N.to_nat (sp_blocks size bs - 1))) ->
+  create_sized HO PostIO data size bs = Ok (mkOb PostIO (root_hash HO data) t (spec_outboard HO true data bs)) /\
+  create_sized_fsm HO PostIO data size bs = Ok (mkOb PostIO (root_hash HO data) t (spec_outboard HO true data bs)).
+Proof. exact layout_post. Qed.
+Print Assumptions C03_layout_post.
+
+Theorem C03_layout_pre : forall (HO : hops), cv_len32 HO ->
+  forall (data : bytes HO) (bs : N), blen HO data <= 2 ^ 63 ->
+  let size := blen HO data in
+  let t := mkTree size bs in
+  post_order_chunks_iter t = post_plan size bs ->
+  map (fun nd => pre_order_offset t nd)
+      (filter (sp_persisted size bs) (sp_pre_nodes size bs))
+    = map (fun i => Some (N.of_nat i)) (seq 0 (N.to_nat (sp_blocks size bs - 1))) ->
+  create_sized HO PreIO data size bs = Ok (mkOb PreIO (root_hash HO data) t (spec_outboard HO false data bs)) /\
+  create_sized_fsm HO PreIO data size bs = Ok (mkOb PreIO (root_hash HO data) t (spec_outboard HO false data bs)).
+Proof. exact layout_pre. Qed.
+Print Assumptions C03_layout_pre.
